@@ -19,6 +19,11 @@ sees is ``x / S`` — the int ``x`` when S = 1, the float ``x / S`` otherwise (w
 multiples of S stay ints) — so floats are dyadic and every sum is exact and order independent.
 MIN, MAX, SUM and AVG commute with the scaling, COUNT ignores it; the mirror does not use this
 (it folds the real values), so the scaling itself is checked by model == mirror.
+
+Round 3: value kind ``xfloat`` (NaN, the infinities and -0.0 among the floats; a NaN is a value, not a
+null), ``append`` elements in sequences (the frame is mutated between calls), the ``decoy`` backing (the
+same calls on another frame with the same column names first) and ``self_contained`` (a failing input is
+confirmed in a fresh interpreter before it is reported).
 """
 import glob
 import itertools
@@ -44,6 +49,19 @@ AVG_REL_TOL = Fraction(1, 10**25)
 TEXT_RANKS = sorted(["", " ", "A", "B", "Z", "a", "ab", "abc", "b", "z", "é", "日本", "10", "9"])
 DECIMAL_SCALES = (10, 100, 1000)
 
+# vkind "xfloat": a float column that may hold the non-finite floats and the negative zero.  A NaN is a
+# value, not a null (the statement folds "that group's non-null values"; C15 reads NaN the same way): COUNT
+# counts it, SUM and AVG of a group that holds one are NaN.  Cells travel as the integer x of x / scale, or
+# one of these tokens; the Lean model (Model/GroupByX.lean) computes on `XVal` = finite | +inf | -inf | NaN.
+XTOKENS = {"nan": float("nan"), "inf": float("inf"), "-inf": float("-inf"), "-0": -0.0}
+# aggregate cells that are not numbers: ("x", "nan" | "inf" | "-inf"), and ("x", "?") for MIN / MAX over a
+# group that holds a NaN (Python's walk depends on the row order there: outside the demand, never judged)
+X_NAN, X_PINF, X_NINF, X_ANY = ("x", "nan"), ("x", "inf"), ("x", "-inf"), ("x", "?")
+
+
+def is_special(v):
+    return isinstance(v, (tuple, list)) and len(v) == 2 and v[0] == "x"
+
 
 def actual_value(x, scale, mixed, vkind="number", negzero=False):
     if x is None:
@@ -52,6 +70,12 @@ def actual_value(x, scale, mixed, vkind="number", negzero=False):
         return TEXT_RANKS[x]
     if vkind == "bool":
         return bool(x)  # cells are 0 / 1; Python counts True as 1 in sum()
+    if vkind == "xfloat":
+        if isinstance(x, str):
+            return XTOKENS[x]
+        if mixed and x % scale == 0:
+            return x // scale  # an int among the floats
+        return x / scale
     if vkind == "decimal":
         if mixed and x % scale == 0:
             return x // scale  # an int among the Decimals: int + Decimal is exact
@@ -86,7 +110,7 @@ def valid_case(c):
         if not isinstance(c["keys"], list) or not c["keys"]:
             return False
         vkind = c.get("vkind", "number")
-        if vkind not in ("number", "text", "decimal", "bool"):
+        if vkind not in ("number", "text", "decimal", "bool", "xfloat"):
             return False
         if vkind == "decimal":
             if c.get("scale", 1) not in DECIMAL_SCALES:
@@ -97,6 +121,7 @@ def valid_case(c):
         elif c.get("scale", 1) not in (1, 2, 4, 8):
             return False
         vset = set(c["vcols"])
+        xfloat = vkind == "xfloat"
         if not vset <= set(cols):
             return False
         if (c.get("scale", 1) != 1 or vkind != "number") and vset & set(c["keys"]):
@@ -106,7 +131,11 @@ def valid_case(c):
                 return False
             for i, x in enumerate(r):
                 if cols[i] in vset:
+                    if xfloat and isinstance(x, str) and x in XTOKENS:
+                        continue
                     if not (x is None or (isinstance(x, int) and not isinstance(x, bool))):
+                        return False
+                    if xfloat and x is not None and abs(x) >= 2**40:
                         return False
                     if vkind == "text" and x is not None and not 0 <= x < len(TEXT_RANKS):
                         return False
@@ -175,10 +204,34 @@ def in_domain(case):
 # --------------------------------------------------------------------------- implementation
 
 
-BACKINGS = ("list", "gen", "dicts", "schema", "select", "filter", "take", "genselect")
+BACKINGS = ("list", "gen", "dicts", "schema", "select", "filter", "take", "genselect", "decoy")
+# "decoy": a list-backed frame, used after the same calls were made on ANOTHER frame with the same column names
+# in another order and one more row, which is dropped before the frame of the case is built (its address may be
+# reused): state shared between frames / GroupBy objects / the class (a cache keyed by column name, by the
+# number of columns, by id(frame)) shows up here, in one self-contained case
 # lazily backed: `_rows` is a generator until something materialises the frame
 LAZY = {"gen", "select", "filter", "take", "genselect"}
 _JUNK = ("junk", -7, None)
+
+
+def decoy_case(case):
+    """The same calls on a frame with the columns rotated by one place (every column is somewhere else)
+    and one more row."""
+    def rot(xs):
+        return list(xs[1:]) + list(xs[:1])
+    c = dict(case)
+    c["columns"] = rot(case["columns"])
+    rows = [rot(r) for r in case["rows"]]
+    c["rows"] = rows[:1] + rows
+    if "seq" in case:
+        c["seq"] = [dict(el, row=rot(el["row"])) if el.get("op") == APPEND else el for el in case["seq"]]
+    return c
+
+
+def backing_label(b):
+    if b == "decoy":
+        return " [after the same calls on another frame with the same column names]"
+    return " [%s-backed]" % ("gen" if b == "gen" else "lazily " + b if b in LAZY else b)
 
 
 def _frame(case, backing):
@@ -256,6 +309,9 @@ def _call(gb, case):
 
 def run_impl(case, backing="list"):
     """A fresh frame, a fresh GroupBy object, one call."""
+    if backing == "decoy":
+        run_impl(decoy_case(case), "list")
+        backing = "list"
     try:
         gb = _group_by(_frame(case, backing), case)
     except Exception as e:  # noqa: BLE001
@@ -268,10 +324,35 @@ def run_impl(case, backing="list"):
 SUB_KEYS = ("columns", "vcols", "rows", "scale", "mixed", "vkind", "negzero")
 # uses of the frame itself between two grouping calls; none of them may change any later result
 NOOPS = ("len", "rowcount", "peek")
+# ... and a mutation of the frame between two calls: `df.append(row)`.  The GroupBy objects hold a reference
+# to the frame, so every later call is judged against the frame as it is then (theorem sequence_with_appends)
+APPEND = "append"
 
 
 def is_noop(el):
-    return el.get("op") in NOOPS
+    """An element of a sequence that returns nothing to judge (it must not raise, though)."""
+    return el.get("op") in NOOPS or el.get("op") == APPEND
+
+
+def has_appends(case):
+    return any(isinstance(el, dict) and el.get("op") == APPEND for el in case.get("seq", []))
+
+
+def seq_subs(case):
+    """[(element, the single-call case it stands for | None)]: the frame grows with every append."""
+    rows = list(case["rows"])
+    out = []
+    for el in case["seq"]:
+        if el.get("op") == APPEND:
+            rows = rows + [el["row"]]
+            out.append((el, None))
+        elif is_noop(el):
+            out.append((el, None))
+        else:
+            c = sub_case(case, el)
+            c["rows"] = list(rows)
+            out.append((el, c))
+    return out
 
 
 def sub_case(case, el):
@@ -295,14 +376,26 @@ def valid_seq_case(c):
         for el in c["seq"]:
             if not isinstance(el, dict):
                 return False
+            if el.get("op") == APPEND:
+                # DataFrame.append sizes the row with msgpack: integers beyond 64 bits cannot be appended
+                # (a limit of append, not of grouping), so appended cells stay inside the signed 64-bit range
+                if not isinstance(el.get("row"), list) or any(
+                        isinstance(x, int) and not isinstance(x, bool) and not -2**63 <= x < 2**63 for x in el["row"]):
+                    return False
+                probe = {k: c[k] for k in SUB_KEYS if k in c}
+                probe.update(rows=[el.get("row")], keys=c["gbs"][0], op="groups", reqs=[])
+                if not valid_case(probe):
+                    return False
+                continue
             if is_noop(el):
                 continue
             if not isinstance(el.get("gb", 0), int) or not 0 <= el.get("gb", 0) < len(c["gbs"]):
                 return False
-            if not valid_case(sub_case(c, el)):
+        for el, sub in seq_subs(c):
+            if sub is not None and not valid_case(sub):
                 return False
         for b in c.get("backings", ["list"]):
-            if b not in BACKINGS:
+            if b not in BACKINGS or (b == "schema" and has_appends(c)):  # the VARCHAR schema validates appended rows
                 return False
         return True
     except Exception:
@@ -311,13 +404,21 @@ def valid_seq_case(c):
 
 def run_impl_seq(case, backing="list"):
     """One frame, one GroupBy object per entry of `gbs`, the calls of `seq` in order."""
+    if backing == "decoy":
+        try:
+            run_impl_seq(decoy_case(case), "list")
+        except Exception:  # noqa: BLE001 - whatever happens on the other frame is not judged
+            pass
+        backing = "list"
     df = _frame(case, backing)
     gbs = {}
     out = []
     for el in case["seq"]:
         if is_noop(el):
             try:
-                if el["op"] == "len":
+                if el["op"] == APPEND:
+                    df.append(dict(zip(case["columns"], actual_rows(dict(case, rows=[el["row"]]))[0])))
+                elif el["op"] == "len":
                     len(df)
                 elif el["op"] == "rowcount":
                     df.rowcount
@@ -355,12 +456,13 @@ def oracle_seq(case, ctx=None, by_backing=None):
         if first is None:
             first = res
         used = set()
-        for i, (el, impl) in enumerate(zip(case["seq"], res)):
+        appended = False
+        for i, ((el, sub), impl) in enumerate(zip(seq_subs(case), res)):
             if is_noop(el):
                 if impl[0] == "err":
-                    return "%s of the frame raised %s [%s-backed]" % (el["op"], impl[1], b), res
+                    return "%s of the frame raised %s%s" % (el["op"], impl[1], backing_label(b)), res
+                appended = appended or el["op"] == APPEND
                 continue
-            sub = sub_case(case, el)
             want = mirror(sub)
             g = el.get("gb", 0)
             cl = compare(sub, impl, want)
@@ -372,15 +474,20 @@ def oracle_seq(case, ctx=None, by_backing=None):
                     cl = "a later call on the same GroupBy object: " + cl
                 elif i > 0:
                     cl = "a call on a second GroupBy object of the same frame: " + cl
+                if appended:
+                    cl = APPENDED + cl
                 if b != "list":
-                    cl += " [%s-backed]" % ("gen" if b == "gen" else "lazily " + b if b in LAZY else b)
+                    cl += backing_label(b)
                 return cl, res
             used.add(g)
     return None, first
 
 
 def model_lines_seq(case):
-    """One driver line per GroupBy object: its calls in order."""
+    """One driver line per GroupBy object: its calls in order.  (A frame with non-finite floats: one line
+    per call — theorem `sequence_independent` is what makes the calls of a sequence independent.)"""
+    if is_x(case) or has_appends(case):
+        return [model_line(sub) for _, sub in seq_subs(case) if sub is not None]
     lines = []
     for g, keys in enumerate(case["gbs"]):
         ops = []
@@ -393,6 +500,9 @@ def model_lines_seq(case):
 
 def model_results_seq(case, texts):
     """The model's result for every element of the sequence, in the mirror's form."""
+    if is_x(case) or has_appends(case):
+        it = iter(texts)
+        return [("noop",) if sub is None else model_result(sub, next(it)) for _, sub in seq_subs(case)]
     per_gb = []
     for t in texts:
         if not t.startswith("ok "):
@@ -424,6 +534,8 @@ def code_line_seq(case, lazy):
     cols = case["columns"]
     if any(k not in cols for keys in case["gbs"] for k in keys):
         return None
+    if is_x(case) or has_appends(case):
+        return None  # the code-level interpreter computes on integers, over one fixed frame
     calls = []
     for el in case["seq"]:
         if not is_noop(el):
@@ -492,7 +604,7 @@ def evaluate_seq(ctx, cases):
     mouts = ctx.model.batch(lines)
     couts = ctx.model.batch(clines)
     for c, (lo, n), (clo, zs) in zip(cases, spans, cspans):
-        subs = [None if is_noop(el) else sub_case(c, el) for el in c["seq"]]
+        subs = [sub for _, sub in seq_subs(c)]
         for sub in subs:
             if sub is not None and not in_domain(sub):
                 raise InfraError("generator left the domain where == and structural equality coincide: %r" % (c,))
@@ -501,6 +613,7 @@ def evaluate_seq(ctx, cases):
         for sub, w, m in zip(subs, wants, mres):
             if sub is not None and not same_expected(w, m):
                 raise InfraError("Lean model and Python mirror differ inside a sequence %r:\n model  %r\n mirror %r" % (c, m, w))
+        mres = [m if sub is None else mask_unjudged(w, m) for sub, w, m in zip(subs, wants, mres)]
         code = {z: code_results_seq(c, couts[clo + j]) for j, z in enumerate(zs)}
         ncalls = sum(1 for el in c["seq"] if not is_noop(el))
         ctx.case(c, len(c["rows"]) >= 2 and ncalls >= 2)
@@ -526,13 +639,14 @@ def evaluate_seq(ctx, cases):
             _SEEN_CLAUSES[id(ctx)].add(_norm(clause))
 
             def still(c2, clause=clause):
-                if not valid_seq_case(c2) or not all(in_domain(sub_case(c2, el)) for el in c2["seq"] if not is_noop(el)):
+                if not valid_seq_case(c2) or not all(in_domain(sub) for _, sub in seq_subs(c2) if sub is not None):
                     return False
                 try:
                     return _norm(oracle_seq(c2)[0]) == _norm(clause)
                 except InfraError:
                     return False
             c_min = c if ctx.replaying else shrink(c, still)
+            c_min, clause, alone = self_contained(ctx, c, c_min, clause)
             by2 = {}
             cl2, impl2 = oracle_seq(c_min, None, by2)
             try:
@@ -540,7 +654,7 @@ def evaluate_seq(ctx, cases):
             except InfraError:
                 m2 = None
             ctx.fail(c_min, cl2 or clause, impl=[_show(r) for r in impl2], model=None if m2 is None else [_show(r) for r in m2],
-                     detail=_code_detail(ctx, c_min, by2))
+                     detail=_with_note(_code_detail(ctx, c_min, by2), alone))
             continue
         for i, (sub, r, m) in enumerate(zip(subs, impl, mres)):
             if sub is None:
@@ -609,9 +723,45 @@ def exact(v):
     return Fraction(v)
 
 
+def xclass(v):
+    """The non-finite floats: 'nan' | 'inf' | '-inf'; None for every other value."""
+    if isinstance(v, float) and not math.isfinite(v):
+        return "nan" if v != v else "inf" if v > 0 else "-inf"
+    return None
+
+
+def fold_reference(f, vs):
+    """The aggregate `f` of the non-null values `vs` (real values), as usually defined: None | Fraction |
+    text | one of the X_* cells.  NaN is a value: it is counted, and SUM / AVG of values with a NaN among
+    them (or with both infinities) are NaN; a sum with one infinity is that infinity."""
+    if f == "COUNT":
+        return Fraction(len(vs))
+    if not vs:
+        return None
+    kinds = {xclass(v) for v in vs}
+    finite = [exact(v) for v in vs if xclass(v) is None]
+    if f in ("MIN", "MAX"):
+        if "nan" in kinds:
+            return X_ANY  # `<` is not total on the group (theorem min_of_total_order_ignores_row_order)
+        lo, hi = ("-inf", "inf") if f == "MIN" else ("inf", "-inf")
+        if lo in kinds:
+            return ("x", lo)
+        if finite:
+            return min(finite) if f == "MIN" else max(finite)
+        return ("x", hi)
+    if "nan" in kinds or ("inf" in kinds and "-inf" in kinds):
+        return X_NAN
+    if "inf" in kinds:
+        return X_PINF
+    if "-inf" in kinds:
+        return X_NINF
+    total = sum(finite, Fraction(0))
+    return total if f == "SUM" else total / len(vs)
+
+
 def mirror(case):
     """Partition-and-fold in plain Python.  ('ok', header, rows) | ('err', 'ValueError').
-    Aggregate cells are None | Fraction; key cells are the key values."""
+    Aggregate cells are None | Fraction (| a text | an X_* cell); key cells are the key values."""
     cols = case["columns"]
     keys = case["keys"]
     if any(k not in cols for k in keys):
@@ -645,22 +795,10 @@ def mirror(case):
         cells = {}
         for f, c in reqs:
             if c in cols:
-                vs = [exact(r[cols.index(c)]) for r in g if r[cols.index(c)] is not None]
+                vs = [r[cols.index(c)] for r in g if r[cols.index(c)] is not None]
             else:
-                vs = [Fraction(0)] * len(g)  # the "*" pseudo column: one non-null marker per row
-            if f == "COUNT":
-                a = Fraction(len(vs))
-            elif not vs:
-                a = None
-            elif f == "MIN":
-                a = min(vs)
-            elif f == "MAX":
-                a = max(vs)
-            elif f == "SUM":
-                a = sum(vs, Fraction(0))
-            else:
-                a = sum(vs, Fraction(0)) / len(vs)
-            cells["%s(%s)" % (f, c)] = a
+                vs = [0] * len(g)  # the "*" pseudo column: one non-null marker per row
+            cells["%s(%s)" % (f, c)] = fold_reference(f, vs)
         out.append([cells[l] for l in labels] + key_cells(k))
     return ("ok", labels + key_header, out)
 
@@ -668,10 +806,22 @@ def mirror(case):
 # --------------------------------------------------------------------------- model
 
 
+def is_x(case):
+    return case.get("vkind") == "xfloat"
+
+
+def model_rows(case):
+    """The rows as the model reads them: the negative zero is the number zero."""
+    if not is_x(case):
+        return case["rows"]
+    return [[0 if x == "-0" else x for x in r] for r in case["rows"]]
+
+
 def model_line(case):
     if case.get("op", "aggregate") == "groups":
-        return "C12 groups " + wire.line(case["columns"], case["rows"], case["keys"])
-    return "C12 aggregate " + wire.line(case["columns"], case["rows"], case["keys"], case["reqs"])
+        return "C12 groups " + wire.line(case["columns"], model_rows(case), case["keys"])
+    return "C12 %s " % ("aggregate_x" if is_x(case) else "aggregate") + wire.line(
+        case["columns"], model_rows(case), case["keys"], case["reqs"])
 
 
 def model_result(case, text):
@@ -699,6 +849,10 @@ def _unscale(case, m):
                 cells.append(v)
             elif v is None:
                 cells.append(None)
+            elif is_special(v):
+                if v[1] not in ("nan", "inf", "-inf"):
+                    raise InfraError("bad cell from the model: %r" % (v,))
+                cells.append(("x", v[1]))
             elif isinstance(v, list):
                 if v[0] != "avg" or v[2] <= 0:
                     raise InfraError("bad AVG cell from the model: %r" % (v,))
@@ -713,6 +867,14 @@ def _unscale(case, m):
     return ("ok", header, out)
 
 
+def mask_unjudged(want, m):
+    """The model's answer with the cells the mirror does not judge (MIN / MAX over a NaN) left open."""
+    if want[0] != "ok" or m[0] != "ok" or not any(is_special(x) and tuple(x) == X_ANY for r in want[2] for x in r):
+        return m
+    return ("ok", m[1], [[X_ANY if is_special(x) and tuple(x) == X_ANY else y for x, y in zip(rw, rm)]
+                         for rw, rm in zip(want[2], m[2])])
+
+
 def same_expected(a, b):
     if a[0] != b[0]:
         return False
@@ -724,7 +886,11 @@ def same_expected(a, b):
         if len(ra) != len(rb):
             return False
         for x, y in zip(ra, rb):
-            if isinstance(x, Fraction) or isinstance(y, Fraction):
+            if is_special(x) or is_special(y):
+                # MIN / MAX over a group with a NaN: the model walks like Python, the mirror does not judge
+                if not (tuple(x) == X_ANY or (is_special(x) and is_special(y) and tuple(x) == tuple(y))):
+                    return False
+            elif isinstance(x, Fraction) or isinstance(y, Fraction):
                 if not (isinstance(x, Fraction) and isinstance(y, Fraction) and x == y):
                     return False
             elif not wire.same(x, y):
@@ -739,6 +905,14 @@ def cell_ok(func, got, want, vkind="number"):
     """Is the implementation's cell `got` the aggregate `want` (None | Fraction)?"""
     if want is None:
         return got is None
+    if is_special(want):
+        if tuple(want) == X_ANY:
+            return True
+        if not isinstance(got, (float, Decimal)):
+            return False
+        if want[1] == "nan":
+            return got != got if isinstance(got, float) else got.is_nan()
+        return got == XTOKENS[want[1]]
     if isinstance(want, str):
         return isinstance(got, str) and got == want
     if got is None:
@@ -751,6 +925,8 @@ def cell_ok(func, got, want, vkind="number"):
     if isinstance(got, float) and not math.isfinite(got):
         return False
     if not isinstance(got, (int, float, Decimal, Fraction)):
+        return False
+    if isinstance(got, Decimal) and not got.is_finite():
         return False
     g = Fraction(got)
     if func == "AVG":
@@ -802,23 +978,39 @@ def compare(case, impl, want):
     return None
 
 
-def canonical(impl):
-    """Order-free rendering of an implementation result, for comparing runs with each other."""
+def canonical(impl, unjudged=()):
+    """Order-free rendering of an implementation result, for comparing runs with each other.
+    `unjudged`: labels whose cells the property does not determine (MIN / MAX of a column with a NaN)."""
     if impl[0] == "err":
         return repr(impl)
     _, header, rows = impl
     order = sorted(range(len(header)), key=lambda i: header[i])
-    return repr((sorted(header), sorted(repr([_c(r[i]) for i in order]) for r in rows)))
+    return repr((sorted(header), sorted(repr(["?" if header[i] in unjudged else _c(r[i]) for i in order]) for r in rows)))
 
 
 def _c(v):
+    if isinstance(v, int) and not isinstance(v, bool):
+        return "n%s" % v  # by value: the least of 0 and -0.0 (an int among the floats) may be either
     if isinstance(v, float):
         if math.isfinite(v):
             return "n%s" % Fraction(v)  # by value: MIN of 0.0 and -0.0 may be either zero
+        if v != v:
+            return "nan"  # the sign and payload of a NaN depend on the order of the additions
         return "f%016x" % wire.fbits(v)
     if isinstance(v, Decimal):
+        if v.is_nan():
+            return "dnan"
         return "d" + str(v.normalize())
     return v
+
+
+def unjudged_labels(case):
+    """MIN(c) / MAX(c) of a value column that holds a NaN somewhere in the frame."""
+    if not is_x(case) or case.get("op", "aggregate") == "groups":
+        return set()
+    cols = case["columns"]
+    with_nan = {c for i, c in enumerate(cols) if c in case["vcols"] and any(r[i] == "nan" for r in case["rows"])}
+    return {"%s(%s)" % (f, c) for f, c in case["reqs"] if f in ("MIN", "MAX") and c in with_nan}
 
 
 def layout_matches(case, impl, want):
@@ -832,8 +1024,13 @@ def layout_matches(case, impl, want):
     return all(wire.same([r[i] for i in kpos], [w[i] for i in kpos]) for r, w in zip(impl[2], want[2]))
 
 
+APPENDED = "after rows were appended to the frame: "
+
+
 def _norm(clause):
-    return None if clause is None else "".join(ch for ch in clause if not ch.isdigit())
+    """A clause up to its numbers, and up to whether rows were appended before the failing call (so that the
+    shrinker drops appends the failure does not need)."""
+    return None if clause is None else "".join(ch for ch in clause.replace(APPENDED, "") if not ch.isdigit())
 
 
 def variants(case):
@@ -867,10 +1064,9 @@ def oracle(case, by_backing=None):
         w2 = want if p is None else mirror(c2)
         cl = compare(c2, impl, w2)
         if cl is not None:
-            where = "" if (b == "list" and p is None) else (
-                " [%s-backed]" % ("gen" if b == "gen" else "lazily " + b if b in LAZY else b) if p is None else " [rows permuted]")
+            where = "" if (b == "list" and p is None) else (backing_label(b) if p is None else " [rows permuted]")
             return cl + where, impl
-        can = canonical(impl)
+        can = canonical(impl, unjudged_labels(case))
         if canon0 is None:
             canon0 = can
         elif can != canon0:
@@ -880,6 +1076,57 @@ def oracle(case, by_backing=None):
 
 
 _SEEN_CLAUSES = {}
+
+
+def _fresh(case):
+    """(runs in the fresh interpreter) the oracle's verdict on one case"""
+    return oracle_seq(case)[0] if "seq" in case else oracle(case)[0]
+
+
+def fresh_clause(case, timeout=120):
+    """The oracle's verdict on `case` in a fresh interpreter: nothing earlier cases of this run left in the
+    process (module-level or class-level state of orso) can contribute.  None: the property holds there."""
+    import subprocess
+    import sys
+    from ..core import REPO, _jsonable
+    prog = ("import sys, json; sys.path.insert(0, %r); from harness import runner, core; runner.setup_impl_path(); "
+            "from harness.props import c12; print('FRESH ' + json.dumps(c12._fresh(core.unjson(json.load(sys.stdin)))))" % VERIF)
+    env = dict(os.environ, ORSO_REPO=REPO, PYTHONHASHSEED="0", PYTHONDONTWRITEBYTECODE="1")
+    try:
+        r = subprocess.run([sys.executable, "-c", prog], input=json.dumps(_jsonable(case)), capture_output=True, text=True,
+                           timeout=timeout, cwd=VERIF, env=env)
+    except subprocess.TimeoutExpired:
+        raise InfraError("a fresh interpreter did not answer within %d s" % timeout)
+    for line in r.stdout.splitlines():
+        if line.startswith("FRESH "):
+            return json.loads(line[6:])
+    raise InfraError("a fresh interpreter failed on %r:\n%s" % (case, (r.stderr or r.stdout)[-1500:]))
+
+
+def self_contained(ctx, c, c_min, clause):
+    """A replay must fail alone.  (case to report, its clause, note | None): the shrunk case when it fails in a
+    fresh interpreter; otherwise the failure needs state that earlier cases of this run left in the process
+    (a module- or class-level cache in orso) — the same case behind a decoy frame, which recreates such state
+    inside the case, is tried next, then the unshrunk case."""
+    if ctx.replaying:
+        return c_min, clause, None
+    def decoyed(x):
+        y = {k: v for k, v in x.items() if k not in ("perms", "all_perms")}
+        y["backings"] = ["decoy"]
+        return y
+    seen = []
+    for cand in (c_min, decoyed(c_min), c, decoyed(c)):
+        if cand in seen or ("seq" in cand and not valid_seq_case(cand)) or ("seq" not in cand and not valid_case(cand)):
+            continue
+        seen.append(cand)
+        got = fresh_clause(cand)
+        if got is not None:
+            ctx.hit("failing-input:fails-alone-in-a-fresh-interpreter" if cand is c_min else
+                    "failing-input:needed-state-left-by-another-frame(reported behind a decoy frame or unshrunk)")
+            return cand, got, None
+    ctx.hit("failing-input:fails-only-after-earlier-cases-of-the-run")
+    return c_min, clause, ("fails in this run only: in a fresh interpreter this input, also behind a decoy frame, satisfies the "
+                           "property, so the failure needs state that earlier inputs left in the process")
 
 
 def evaluate(ctx, cases, code_every=1):
@@ -911,6 +1158,9 @@ def evaluate(ctx, cases, code_every=1):
         mres = model_result(c, mo)
         if not same_expected(want, mres):
             raise InfraError("Lean model and Python mirror of the specification differ on %r:\n model  %r\n mirror %r" % (c, mres, want))
+        if mask_unjudged(want, mres) is not mres:
+            ctx.hit("min-max-over-a-group-with-nan:not-judged")
+            mres = mask_unjudged(want, mres)
         op = c.get("op", "aggregate")
         n = len(c["rows"])
         nontrivial = n >= 2 and want[0] == "ok" and len(want[2]) >= 1
@@ -953,13 +1203,15 @@ def evaluate(ctx, cases, code_every=1):
                 except InfraError:
                     return False
             c_min = c if ctx.replaying else shrink(_shrinkable(c), still)
+            c_min, clause, alone = self_contained(ctx, c, c_min, clause)
             by2 = {}
             cl2, impl2 = oracle(c_min, by2)
             try:
                 m2 = model_result(c_min, ctx.model.one(model_line(c_min)))
             except InfraError:
                 m2 = None
-            ctx.fail(c_min, cl2 or clause, impl=_show(impl2), model=_show(m2), detail=_code_detail(ctx, as_seq(c_min), by2))
+            ctx.fail(c_min, cl2 or clause, impl=_show(impl2), model=_show(m2),
+                     detail=_with_note(_code_detail(ctx, as_seq(c_min), by2), alone))
             continue
         # correspondence proper: the model's answer against the implementation's (first variant)
         cl = compare(c, impl, mres)
@@ -972,6 +1224,14 @@ def evaluate(ctx, cases, code_every=1):
         if cl is None and zs:
             sq = as_seq(c)
             _code_verdict(ctx, sq, by_backing, {z: code_results_seq(sq, couts[clo + j]) for j, z in enumerate(zs)}, [mres])
+
+
+def _with_note(detail, note):
+    if note is None:
+        return detail
+    d = dict(detail) if isinstance(detail, dict) else {}
+    d["note"] = note
+    return d
 
 
 def _shrinkable(c):
@@ -1092,8 +1352,15 @@ def random_case(ctx, big=False):
         n = rng.choice([30, 60, 120, 250])
     else:
         n = rng.choice([0, 1, 2, 3, 4, 5, 6, 8, 12, 20])
-    vkind = rng.choice(["number"] * 7 + ["text", "decimal", "decimal", "bool"])
-    if vkind == "text":
+    vkind = rng.choice(["number"] * 7 + ["text", "decimal", "decimal", "bool", "xfloat", "xfloat"])
+    pspecial = 0.0
+    if vkind == "xfloat":
+        # floats with NaN, the infinities and the negative zero among them
+        scale, mixed = rng.choice([(1, False), (4, False), (8, False), (4, True)])
+        mag = rng.choice([3, 3, 20, 1000])
+        pspecial = rng.choice([0.1, 0.3, 0.6])
+        specials = rng.choice([["nan"], ["nan", "inf", "-inf", "-0"], ["nan", "nan", "inf", "-0"], ["inf", "-inf"], ["-0", "nan"]])
+    elif vkind == "text":
         scale, mixed, mag = 1, False, None
     elif vkind == "bool":
         scale, mixed, mag = 1, False, None
@@ -1109,7 +1376,7 @@ def random_case(ctx, big=False):
     rows = []
     for _ in range(n):
         key = list(rng.choice(small)) if rng.random() < 0.8 else [gen_key_value(rng, f) for f in families]
-        vals = [None if rng.random() < pnull else
+        vals = [None if rng.random() < pnull else rng.choice(specials) if rng.random() < pspecial else
                 (rng.randrange(len(TEXT_RANKS)) if vkind == "text" else rng.randrange(2) if vkind == "bool"
                  else rng.randint(-mag, mag)) for _ in vcols]
         full = key + vals + ["p" for _ in extra]
@@ -1155,7 +1422,8 @@ def random_case(ctx, big=False):
     if rng.random() < 0.2:
         c["key_container"] = "tuple"
     c["backings"] = rng.choice([["list"], ["gen"], ["list", "gen"], ["list", "gen", "dicts"], ["dicts"], ["schema", "gen"],
-                                ["select"], ["filter", "list"], ["take"], ["genselect", "dicts"], ["list", "take", "select"]])
+                                ["select"], ["filter", "list"], ["take"], ["genselect", "dicts"], ["list", "take", "select"],
+                                ["decoy"], ["decoy", "gen"]])
     if 2 <= n <= 5 and rng.random() < 0.3:
         c["all_perms"] = True
     elif n > 5 and rng.random() < 0.3:
@@ -1201,6 +1469,7 @@ SEQ_ALPHABET = [
     {"op": "aggregate", "reqs": [["MIN", "v"]], "via": "min"},
     {"op": "groups", "reqs": []},
     {"op": "aggregate", "reqs": [["SUM", "v"], ["SUM", "w"], ["COUNT", "*"]]},
+    {"op": "aggregate", "reqs": [["MAX", "w"]], "via": "max", "bare_col": True},
 ]
 SEQ_FRAMES = [
     [],
@@ -1210,6 +1479,18 @@ SEQ_FRAMES = [
     [[0, "a", 3, 5], [0, "b", 1, 7], [2**61 - 1, "a", 2, 6], [0, "a", 4, None]],
     [[None, "", 2, None], [-2, "", None, None], [None, "", 1, 4], [-1, "x", 1, 1], [-2, "", None, 9]],
 ]
+
+
+X_REQS = [
+    [["COUNT", "v"], ["SUM", "v"], ["AVG", "v"], ["COUNT", "*"], ["MIN", "v"], ["MAX", "v"]],
+    [["SUM", "v"], ["COUNT", "w"]],
+    [["AVG", "v"]],
+    [["COUNT", "v"]],
+]
+X_SEQ_FRAME = [[-1, "a", "nan", 5], [-2, "a", 2, None], [-1, "a", None, "inf"], [-1, "b", "-0", "-inf"], [-2, "a", "inf", "nan"]]
+
+
+APPEND_ROWS = [[-1, "a", 7, None], [5, "z", None, None], [2**61 - 1, "a", 1, 1], [None, "", None, 2], [-2, "a", 0, 0]]
 
 
 def seq_base(rows, seq, gbs, backings):
@@ -1225,7 +1506,7 @@ def exhaustive_sequences(ctx, maxlen):
         for n in range(1, maxlen + 1):
             for seq in itertools.product(SEQ_ALPHABET, repeat=n):
                 i += 1
-                second = ["gen", "dicts", "schema", "select", "filter", "take", "genselect"]
+                second = ["gen", "dicts", "schema", "select", "filter", "take", "genselect", "decoy"]
                 back = ["list"] if i % 5 else ["list", second[(i // 5) % len(second)]]
                 yield seq_base(rows, seq, [["k", "j"]], back)
                 if n >= 2:
@@ -1235,6 +1516,13 @@ def exhaustive_sequences(ctx, maxlen):
                         # objects that group by different columns, on a lazily backed frame
                         yield seq_base(rows, alt, [["k"], ["j", "k"]], [LAZY_CYCLE[(i // 3) % len(LAZY_CYCLE)]])
                 if n == 2:
+                    # a row is appended to the frame between the two calls (use, mutate, use again)
+                    ab = ["list", "gen", "dicts", "select", "take", "filter", "genselect"][i % 7]
+                    yield seq_base(rows, [seq[0], {"op": APPEND, "row": APPEND_ROWS[i % len(APPEND_ROWS)]}, seq[1]],
+                                   [["k", "j"]], [ab])
+                    if i % 4 == 0:
+                        yield seq_base(rows, [dict(seq[0], gb=0), {"op": APPEND, "row": APPEND_ROWS[(i // 4) % len(APPEND_ROWS)]},
+                                              dict(seq[1], gb=1), dict(seq[0], gb=0)], [["k"], ["j", "k"]], [ab])
                     # the frame itself is used between the two calls (len / rowcount / one step of an iteration)
                     mid = {"op": NOOPS[i % len(NOOPS)]}
                     objs = [[["k", "j"], ["j"]], [["k"], ["j"]]][(i // 2) % 2]  # also: as many key columns, other ones
@@ -1289,8 +1577,15 @@ def random_seq_case(ctx, big=False):
     out = {k: c[k] for k in SUB_KEYS if k in c}
     out.update({"gbs": gbs, "seq": seq,
                 "backings": rng.choice([["list"], ["list"], ["gen"], ["dicts"], ["schema"], ["list", "gen"], ["select"],
-                                        ["filter"], ["take"], ["genselect"], ["take", "list"]])})
-    if not valid_seq_case(out) or not all(in_domain(sub_case(out, el)) for el in out["seq"] if not is_noop(el)):
+                                        ["filter"], ["take"], ["genselect"], ["take", "list"], ["decoy"], ["decoy"]])})
+    if rng.random() < 0.2 and "schema" not in out["backings"]:
+        # rows are appended to the frame between calls: cells resampled column by column from the frame
+        rows = out["rows"]
+        for _ in range(rng.choice([1, 1, 2, 3])):
+            new = [rng.choice(rows)[i] if rows else None for i in range(len(out["columns"]))]
+            new = [x % 2**40 if isinstance(x, int) and not isinstance(x, bool) and not -2**63 <= x < 2**63 else x for x in new]
+            out["seq"].insert(rng.randrange(len(out["seq"]) + 1), {"op": APPEND, "row": new})
+    if not valid_seq_case(out) or not all(in_domain(sub) for _, sub in seq_subs(out) if sub is not None):
         return random_seq_case(ctx, big)
     return out
 
@@ -1374,6 +1669,12 @@ def run(ctx):
         "no NaN, no -0.0); every generated case is checked to be inside that domain",
         "value columns hold ints and dyadic floats (sums exact and order independent); the model computes on the integers "
         "x of x/scale, the Python mirror on the real values, and the two are compared exactly on every case",
+        "a float NaN is a value, not a null: float columns with NaN, inf, -inf and -0.0 are judged NaN-aware for COUNT, SUM, AVG "
+        "and COUNT(*) (Lean model Model/GroupByX.lean); MIN / MAX over a group that holds a NaN depend on the row order in "
+        "Python and are not judged",
+        "rows appended to the frame between two calls (DataFrame.append) are seen by every later call; appended integers stay "
+        "within 64 bits (append sizes the row with msgpack)",
+        "a failing input is re-judged in a fresh interpreter before it is reported, so that every replay fails alone",
         "AVG is compared as an exact rational with orso's decimal quotient within 1e-25 relative",
         "output order (of rows and of columns) is not part of the property: columns are matched by name, rows by key; "
         "whether the implementation also has the model's layout is recorded in input_distribution",
@@ -1431,6 +1732,23 @@ def run(ctx):
                  "itself (len / rowcount / one step of an iteration) in between, on %d frames (%d cases)"
                  % (len(SEQ_ALPHABET), len(SEQ_FRAMES), t))
     secs["E5"] = round(time.time() - t0, 1)
+    # E6: every frame of 0..3 rows over a float column with NaN, both infinities and the negative zero
+    a6 = row_alphabet([-1, -2], [None, 1, "nan", "inf", "-inf", "-0"], [3])
+    def e6():
+        i = 0
+        for n in range(0, 4):
+            for rows in itertools.product(a6, repeat=n):
+                i += 1
+                bk = ["list"] if i % 4 else ["list", LAZY_CYCLE[(i // 4) % len(LAZY_CYCLE)]]
+                yield base(rows, X_REQS[i % len(X_REQS)] if n == 3 else X_REQS[0], vkind="xfloat", scale=(2, 4, 8)[i % 3],
+                           backings=bk, all_perms=(n == 3 and i % 7 == 0))
+        for seq in itertools.product(SEQ_ALPHABET, repeat=2):
+            yield dict(seq_base(X_SEQ_FRAME, seq, [["k", "j"]], ["list"]), vkind="xfloat", scale=2)
+    t = _batches(ctx, e6())
+    scope.append("all frames of 0..3 rows over %d distinct rows whose value column holds NaN, inf, -inf, -0.0, a number or null "
+                 "(COUNT / SUM / AVG / COUNT(*) judged everywhere, MIN / MAX where the group holds no NaN), and all pairs of "
+                 "calls on one object over such a frame (%d cases)" % (len(a6), t))
+    secs["E6"] = round(time.time() - t0, 1)
     ctx.note("exhaustive_scope", scope)
     ctx.exhaustive = False
     # the dedicated stream of unequal keys with equal hashes
